@@ -423,6 +423,7 @@ EnabledMC(P, s, a) ==
     [] k \in {"cvwait", "cvwaitfor"} /\ s.sub[a] = 3 -> s.own[op.p] = a
     [] k \in {"put", "get"} /\ s.sub[a] = 2 -> Matched(s, s.cur[a])
     [] k = "wait" -> o <= Len(s.hnd[a]) /\ Matched(s, s.hnd[a][o].c)
+    [] k = "join" -> s.ph[o] \in {"done", "dead"}            \* ACTOR_JOIN: enabled once the target has terminated
     [] OTHER -> TRUE
 RECURSIVE GrantAll(_, _)
 GrantAll(s, q) == IF q = <<>> THEN s ELSE GrantAll([s EXCEPT !.gr[Head(q)] = TRUE], Tail(q))
@@ -465,6 +466,7 @@ HandleMC(P, s, a) ==
                           IF Matched(s, c) THEN AnswerV([s EXCEPT !.act[c].st = "done"], a, "true", IF s.hnd[a][o].r THEN s.act[c].pay ELSE 0)
                           ELSE Answer(s, a, "false")
     [] k = "sleep" -> Answer(s, a, "ok")
+    [] k = "join"  -> IF s.ph[o] = "unborn" THEN Abort(s, a) ELSE Answer(s, a, "ok")
     [] OTHER -> HandleRun(P, s, a)        \* trylock, unlock, rel, puta, putd, geta, yield: one simcall in both modes
 
 \* Pre: s.ph[a] \in {"run","issued"} and s.pc[a] <= NOps(P,a) and ~s.aborted
